@@ -32,6 +32,15 @@ def glueOK (joint : Array Bool) : Nat → List Ev → Bool
     (n ≥ 1) && (List.range (n - 1)).all (fun j => joint.getD (c + j) false) && glueOK joint (c + n) es
   | c, _ :: es => glueOK joint c es
 
+/-- the raw tokens glued into one token event (all but its last) are never `FLOAT_NUMBER`
+(`to_input` marks such a float joint even when trivia follows, so for them "joint" does not
+mean "adjacent") -/
+def glueKE (kinds : Array SyntaxKind) : Nat → List Ev → Bool
+  | _, [] => true
+  | c, .token _ n :: es =>
+    (List.range (n - 1)).all (fun j => kinds.getD (c + j) .EOF != .FLOAT_NUMBER) && glueKE kinds (c + n) es
+  | c, _ :: es => glueKE kinds c es
+
 /-- forward-parent links point at `Start` events; a target that is still a tombstone is a live
 marker created by `precede` and protected from being popped -/
 def FpOKp (prot : List Nat) (evs : List Ev) : Prop :=
@@ -51,6 +60,7 @@ structure Inv (kinds : Array SyntaxKind) (joint : Array Bool) (s : P) : Prop whe
   tok : sumTok s.events.toList = s.pos
   pos_le : s.pos ≤ kinds.size
   glue : glueOK joint 0 s.events.toList = true
+  gluek : glueKE kinds 0 s.events.toList = true
 
 /-! ### list lemmas -/
 
@@ -135,6 +145,29 @@ theorem glueOK_set_start (joint : Array Bool) (c : Nat) (evs : List Ev) (t : Nat
     cases t with
     | zero => simp at h; subst h; simp [List.set, glueOK]
     | succ t => simp at h; cases e <;> simp [List.set, glueOK, ih _ t h]
+
+theorem glueKE_append (kinds : Array SyntaxKind) (c : Nat) (a b : List Ev) :
+    glueKE kinds c (a ++ b) = (glueKE kinds c a && glueKE kinds (c + sumTok a) b) := by
+  induction a generalizing c with
+  | nil => simp [glueKE, sumTok]
+  | cons e es ih =>
+    cases e with
+    | token k n =>
+      simp only [List.cons_append, glueKE, sumTok, ih, Bool.and_assoc]
+      rw [show c + n + sumTok es = c + (n + sumTok es) by omega]
+    | start k fp => simp [glueKE, sumTok, ih]
+    | finish => simp [glueKE, sumTok, ih]
+    | error m => simp [glueKE, sumTok, ih]
+
+theorem glueKE_set_start (kinds : Array SyntaxKind) (c : Nat) (evs : List Ev) (t : Nat) (k k' : SyntaxKind)
+    (fp fp' : Option Nat) (h : evs[t]? = some (.start k fp)) :
+    glueKE kinds c (evs.set t (.start k' fp')) = glueKE kinds c evs := by
+  induction evs generalizing t c with
+  | nil => simp at h
+  | cons e es ih =>
+    cases t with
+    | zero => simp at h; subst h; simp [List.set, glueKE]
+    | succ t => simp at h; cases e <;> simp [List.set, glueKE, ih _ t h]
 
 /-- changing only the link of a `Start` does not affect the weak machine -/
 theorem runW_set_fp (d : Nat) (evs : List Ev) (t : Nat) (k : SyntaxKind) (fp fp' : Option Nat)
@@ -294,7 +327,7 @@ theorem Inv.congr {kinds joint} {s s' : P} (h : Inv kinds joint s) (h1 : s'.kind
     (h2 : s'.joint = s.joint) (h3 : s'.events = s.events) (h4 : s'.pos = s.pos)
     (h5 : s'.protectedPos = s.protectedPos) : Inv kinds joint s' :=
   ⟨h1 ▸ h.kinds_eq, h2 ▸ h.joint_eq, h3 ▸ h.dyck, by rw [h3, h5]; exact h.fp, by rw [h3, h4]; exact h.tok,
-   h4 ▸ h.pos_le, h3 ▸ h.glue⟩
+   h4 ▸ h.pos_le, h3 ▸ h.glue, h3 ▸ h.gluek⟩
 
 theorem current_ok (s : P) (r) : current s = .ok r ↔ r = (s.kindAt s.pos, s) := by
   unfold current
@@ -397,6 +430,10 @@ theorem glueOK_inert (joint : Array Bool) (c : Nat) (e : Ev) (h : e.inert = true
     glueOK joint c [e] = true := by
   cases e <;> simp_all [Ev.inert, glueOK]
 
+theorem glueKE_inert (kinds : Array SyntaxKind) (c : Nat) (e : Ev) (h : e.inert = true) :
+    glueKE kinds c [e] = true := by
+  cases e <;> simp_all [Ev.inert, glueKE]
+
 theorem FpOKp.append_nolink {prot : List Nat} {l : List Ev} (h : FpOKp prot l) (e : Ev)
     (he : ∀ k f, e ≠ .start k (some f)) : FpOKp prot (l ++ [e]) := by
   intro j k f hj
@@ -417,11 +454,12 @@ theorem Inv.push_inert {kinds joint} {s : P} (h : Inv kinds joint s) (e : Ev) (h
     (sb : Nat) : Inv kinds joint { s with events := s.events.push e, sinceBump := sb } := by
   have hnl : ∀ k f, e ≠ .start k (some f) := by
     intro k f hc; subst hc; cases k <;> simp [Ev.inert] at he
-  refine ⟨h.kinds_eq, h.joint_eq, ?_, ?_, ?_, h.pos_le, ?_⟩
+  refine ⟨h.kinds_eq, h.joint_eq, ?_, ?_, ?_, h.pos_le, ?_, ?_⟩
   · simp only [Array.toList_push, runW_append, h.dyck, Option.bind_some]; exact runW_inert 0 e he
   · simpa using h.fp.append_nolink e hnl
   · simp only [Array.toList_push, sumTok_append, sumTok_inert e he, h.tok, Nat.add_zero]
   · simp only [Array.toList_push, glueOK_append, h.glue, glueOK_inert _ _ e he, Bool.and_self]
+  · simp only [Array.toList_push, glueKE_append, h.gluek, glueKE_inert _ _ e he, Bool.and_self]
 
 theorem error_pres {kinds joint} (msg : String) : Pres (Inv kinds joint) (error msg) := by
   refine ⟨fun s r hs h => ?_⟩
@@ -462,10 +500,11 @@ theorem doBump_ok (k : SyntaxKind) (n : Nat) (s : P) (r : Unit × P) (h : doBump
 
 theorem Inv.bump {kinds joint} {s : P} (h : Inv kinds joint s) (k : SyntaxKind) (n : Nat)
     (hfit : s.pos + n ≤ kinds.size) (hn : 1 ≤ n)
-    (hj : ∀ j, j < n - 1 → joint.getD (s.pos + j) false = true) :
+    (hj : ∀ j, j < n - 1 → joint.getD (s.pos + j) false = true)
+    (hkf : ∀ j, j < n - 1 → kinds.getD (s.pos + j) .EOF ≠ .FLOAT_NUMBER) :
     Inv kinds joint { s with pos := s.pos + n, steps := 0, sinceBump := 1,
                              events := s.events.push (.token k n) } := by
-  refine ⟨h.kinds_eq, h.joint_eq, ?_, ?_, ?_, hfit, ?_⟩
+  refine ⟨h.kinds_eq, h.joint_eq, ?_, ?_, ?_, hfit, ?_, ?_⟩
   · simp only [Array.toList_push, runW_append, h.dyck, Option.bind_some]; simp [runW]
   · simpa using h.fp.append_nolink (.token k n) (by intro _ _ hc; cases hc)
   · simp only [Array.toList_push, sumTok_append, h.tok]; simp [sumTok]
@@ -473,12 +512,16 @@ theorem Inv.bump {kinds joint} {s : P} (h : Inv kinds joint s) (k : SyntaxKind) 
     simp only [glueOK, Nat.zero_add, Bool.and_true, Bool.and_eq_true, decide_eq_true_eq,
       List.all_eq_true, List.mem_range]
     exact ⟨hn, hj⟩
+  · simp only [Array.toList_push, glueKE_append, h.gluek, h.tok, Bool.true_and]
+    simp only [glueKE, Nat.zero_add, Bool.and_true, List.all_eq_true, List.mem_range, bne_iff_ne, ne_eq]
+    exact hkf
 
 /-- consistency of the two translated composite-token tables (checked by `decide` on the
 generated tables in `Props/C02.lean`) -/
 def TablesOK : Prop :=
   (∀ k ps, compositePieces k = some ps →
-    (ps.length = 2 ∨ ps.length = 3) ∧ eatRawTokens k = ps.length ∧ ∀ p ∈ ps, p ≠ SyntaxKind.EOF) ∧
+    (ps.length = 2 ∨ ps.length = 3) ∧ eatRawTokens k = ps.length ∧
+      ∀ p ∈ ps, p ≠ SyntaxKind.EOF ∧ p ≠ SyntaxKind.FLOAT_NUMBER) ∧
   (∀ k, compositePieces k = none → eatRawTokens k = 1)
 
 theorem kindAt_ne_eof_lt (s : P) (i : Nat) (h : s.kindAt i ≠ .EOF) : i < s.kinds.size := by
@@ -497,7 +540,8 @@ theorem isJoint_ok (s : P) (n : Nat) (b : Bool) (h : s.isJoint n = .ok b) :
 theorem at_true {kinds joint} {s : P} (hT : TablesOK) (hs : Inv kinds joint s) (k : SyntaxKind)
     (hk : k ≠ .EOF) (r : Bool × P) (h : at' k s = .ok r) (hr : r.1 = true) :
     s.pos + eatRawTokens k ≤ kinds.size ∧ 1 ≤ eatRawTokens k ∧
-      ∀ j, j < eatRawTokens k - 1 → joint.getD (s.pos + j) false = true := by
+      (∀ j, j < eatRawTokens k - 1 → joint.getD (s.pos + j) false = true) ∧
+      (∀ j, j < eatRawTokens k - 1 → kinds.getD (s.pos + j) .EOF ≠ .FLOAT_NUMBER) := by
   unfold at' nthAt at h
   cases hc : compositePieces k with
   | none =>
@@ -509,7 +553,7 @@ theorem at_true {kinds joint} {s : P} (hT : TablesOK) (hs : Inv kinds joint s) (
     have : s.kindAt s.pos ≠ .EOF := by rw [hr]; exact hk
     have := kindAt_ne_eof_lt s _ this
     rw [hs.kinds_eq] at this
-    exact ⟨by omega, by omega, by intro j hj; omega⟩
+    exact ⟨by omega, by omega, by intro j hj; omega, by intro j hj; omega⟩
   | some ps =>
     simp only [hc] at h
     obtain ⟨hlen, heat, hne⟩ := hT.1 k ps hc
@@ -525,14 +569,20 @@ theorem at_true {kinds joint} {s : P} (hT : TablesOK) (hs : Inv kinds joint s) (
         | error e => simp [hj] at h
         | ok b =>
           simp [hj] at h; subst h; simp at hr; subst hr
-          have h2 : s.kindAt (s.pos + 1) ≠ .EOF := by rw [hkk.2]; exact hne k2 (by simp)
+          have h2 : s.kindAt (s.pos + 1) ≠ .EOF := by rw [hkk.2]; exact (hne k2 (by simp)).1
           have := kindAt_ne_eof_lt s _ h2
           rw [hs.kinds_eq] at this
-          refine ⟨by simp; omega, by simp, ?_⟩
-          intro j hjlt
-          have : j = 0 := by simp at hjlt; omega
-          subst this
-          rw [← hs.joint_eq]; exact isJoint_ok s _ _ hj
+          refine ⟨by simp; omega, by simp, ?_, ?_⟩
+          · intro j hjlt
+            have : j = 0 := by simp at hjlt; omega
+            subst this
+            rw [← hs.joint_eq]; exact isJoint_ok s _ _ hj
+          · intro j hjlt
+            have : j = 0 := by simp at hjlt; omega
+            subst this
+            have hk1 := hkk.1
+            simp only [P.kindAt, hs.kinds_eq] at hk1
+            rw [Nat.add_zero, hk1]; exact (hne k1 (by simp)).2
       · simp at h; subst h; simp at hr
     · simp only [atComposite, G.get_bind_ok, Nat.add_zero] at h
       split at h
@@ -549,16 +599,24 @@ theorem at_true {kinds joint} {s : P} (hT : TablesOK) (hs : Inv kinds joint s) (
             | error e => simp [hj2] at h
             | ok b2 =>
               simp [hj2] at h; subst h; simp at hr; subst hr
-              have h3 : s.kindAt (s.pos + 2) ≠ .EOF := by rw [hkk.2]; exact hne k3 (by simp)
+              have h3 : s.kindAt (s.pos + 2) ≠ .EOF := by rw [hkk.2]; exact (hne k3 (by simp)).1
               have := kindAt_ne_eof_lt s _ h3
               rw [hs.kinds_eq] at this
-              refine ⟨by simp; omega, by simp, ?_⟩
-              intro j hjlt
-              simp at hjlt
-              rw [← hs.joint_eq]
-              rcases (show j = 0 ∨ j = 1 by omega) with rfl | rfl
-              · exact isJoint_ok s _ _ hj
-              · exact isJoint_ok s _ _ hj2
+              refine ⟨by simp; omega, by simp, ?_, ?_⟩
+              · intro j hjlt
+                simp at hjlt
+                rw [← hs.joint_eq]
+                rcases (show j = 0 ∨ j = 1 by omega) with rfl | rfl
+                · exact isJoint_ok s _ _ hj
+                · exact isJoint_ok s _ _ hj2
+              · intro j hjlt
+                simp at hjlt
+                have hk1 := hkk.1.1
+                have hk2 := hkk.1.2
+                simp only [P.kindAt, hs.kinds_eq] at hk1 hk2
+                rcases (show j = 0 ∨ j = 1 by omega) with rfl | rfl
+                · rw [Nat.add_zero, hk1]; exact (hne k1 (by simp)).2
+                · rw [hk2]; exact (hne k2 (by simp)).2
       · simp at h; subst h; simp at hr
     · simp at hlen
 
@@ -582,8 +640,8 @@ theorem eat_pres {kinds joint} (hT : TablesOK) (k : SyntaxKind) : Pres (Inv kind
       simp at h6; subst h6
       have hb' : b = true := by simpa using hb
       have hkne : k ≠ .EOF := by simpa using hk
-      obtain ⟨f1, f2, f3⟩ := at_true hT hs k hkne (b, s1) h1 hb'
-      exact hs.bump k _ f1 f2 f3
+      obtain ⟨f1, f2, f3, f4⟩ := at_true hT hs k hkne (b, s1) h1 hb'
+      exact hs.bump k _ f1 f2 f3 f4
 
 
 theorem bump_pres {kinds joint} (hT : TablesOK) (k : SyntaxKind) : Pres (Inv kinds joint) (bump k) := by
@@ -610,7 +668,7 @@ theorem bumpAny_pres {kinds joint} : Pres (Inv kinds joint) bumpAny := by
     have hne : s.kindAt s.pos ≠ .EOF := by simpa using hk
     have := kindAt_ne_eof_lt s _ hne
     rw [hs.kinds_eq] at this
-    exact hs.bump _ 1 (by omega) (by omega) (by intro j hj; omega)
+    exact hs.bump _ 1 (by omega) (by omega) (by intro j hj; omega) (by intro j hj; omega)
 
 theorem expect_pres {kinds joint} (hT : TablesOK) (k : SyntaxKind) :
     Pres (Inv kinds joint) (expect k) := by
@@ -673,7 +731,7 @@ theorem complete_pres {kinds joint} (m : Marker) (kind : SyntaxKind) :
         have hm' : s.events.toList[m.pos]? = some (.start .TOMBSTONE fp) := by
           simpa using hm
         obtain ⟨hsplit, hset⟩ := set_split _ _ _ (Ev.start kind fp) hm'
-        refine ⟨hs.kinds_eq, hs.joint_eq, ?_, ?_, ?_, hs.pos_le, ?_⟩
+        refine ⟨hs.kinds_eq, hs.joint_eq, ?_, ?_, ?_, hs.pos_le, ?_, ?_⟩
         · simp only [Array.toList_push, toList_set!, hset]
           have := hs.dyck; rw [hsplit] at this
           exact runW_complete _ _ kind fp fp hkind' this
@@ -706,6 +764,8 @@ theorem complete_pres {kinds joint} (m : Marker) (kind : SyntaxKind) :
             sumTok_set_start _ _ _ _ _ _ hm', hs.tok]; simp [sumTok]
         · simp only [Array.toList_push, toList_set!, glueOK_append,
             glueOK_set_start _ _ _ _ _ _ _ _ hm', hs.glue]; simp [glueOK]
+        · simp only [Array.toList_push, toList_set!, glueKE_append,
+            glueKE_set_start _ _ _ _ _ _ _ _ hm', hs.gluek]; simp [glueKE]
 
 theorem dropLast_eq (l : List Ev) (x : Ev) (h : l.getLast? = some x) : l = l.dropLast ++ [x] := by
   have hne : l ≠ [] := by intro e; subst e; simp at h
@@ -753,7 +813,7 @@ theorem abandon_pres {kinds joint} (m : Marker) : Pres (Inv kinds joint) m.aband
             intro hc
             apply hprot
             simp [List.contains_iff_mem, hc]
-          refine ⟨hs.kinds_eq, hs.joint_eq, ?_, ?_, ?_, hs.pos_le, ?_⟩
+          refine ⟨hs.kinds_eq, hs.joint_eq, ?_, ?_, ?_, hs.pos_le, ?_, ?_⟩
           · have := hs.dyck; rw [hl, runW_append] at this
             simp only [Array.toList_pop]
             cases hd : runW 0 s.events.toList.dropLast with
@@ -781,6 +841,8 @@ theorem abandon_pres {kinds joint} (m : Marker) : Pres (Inv kinds joint) m.aband
             simp only [Array.toList_pop]; simp [sumTok] at this; exact this
           · have := hs.glue; rw [hl, glueOK_append] at this
             simp only [Array.toList_pop]; simp [glueOK] at this; exact this
+          · have := hs.gluek; rw [hl, glueKE_append] at this
+            simp only [Array.toList_pop]; simp [glueKE] at this; exact this
         · simp at h
       · simp at h; subst h; exact hs.congr rfl rfl rfl rfl rfl
 
@@ -794,7 +856,7 @@ theorem Inv.set_link {kinds joint} {s : P} (h : Inv kinds joint s) (c : Nat) (k 
       (k' = .TOMBSTONE → c + f ∈ prot')) :
     Inv kinds joint { s with events := s.events.setIfInBounds c (.start k (some f)),
                              protectedPos := prot', live := live' } := by
-  refine ⟨h.kinds_eq, h.joint_eq, ?_, ?_, ?_, h.pos_le, ?_⟩
+  refine ⟨h.kinds_eq, h.joint_eq, ?_, ?_, ?_, h.pos_le, ?_, ?_⟩
   · simp only [toList_set!, runW_set_fp _ _ _ _ _ _ hc, h.dyck]
   · simp only [toList_set!]
     intro j k2 f2 hj
@@ -817,6 +879,7 @@ theorem Inv.set_link {kinds joint} {s : P} (h : Inv kinds joint s) (c : Nat) (k 
         exact ⟨k', fp', h1, fun e => hsub _ (h2 e)⟩
   · simp only [toList_set!, sumTok_set_start _ _ _ _ _ _ hc, h.tok]
   · simp only [toList_set!, glueOK_set_start _ _ _ _ _ _ _ _ hc, h.glue]
+  · simp only [toList_set!, glueKE_set_start _ _ _ _ _ _ _ _ hc, h.gluek]
 
 theorem precede_pres {kinds joint} (cm : CompletedMarker) : Pres (Inv kinds joint) cm.precede := by
   refine ⟨fun s r hs h => ?_⟩
